@@ -47,7 +47,7 @@ def mc_instances(quick):
             ("K_1x2_overflow", Q(maxpubs=1, maxsubs=2, bufmax=2, hist=1, borrow=1, loan=2, overflow=True),
              [1], [1, 2], [2], [1], 5, "SysView"),
             ("K_2x2_overflow", Q(maxpubs=2, maxsubs=2, bufmax=1, hist=1, borrow=1, loan=1, overflow=True),
-             [1, 2], [1, 2], [1], [0, 1], 4, "SysView"),
+             [1, 2], [1, 2], [1], [0, 1], 3, "SysView"),
         ]
     return inst
 
